@@ -228,6 +228,8 @@ def gen_cases(tier, seed):
                 c2 = dict(c1, stats=[["k_0", x]])
                 p1 = dict(p1, drop=True)
                 p2 = dict(p1)
+            if rw.is_empty(c1) or rw.is_empty(c2):
+                continue  # (forbidding one more letter can leave nothing: empty classes are not pair material)
             if rng.random() < 0.5:
                 c1, c2 = c2, c1
         elif kind in ("reload", "self"):
